@@ -5,9 +5,15 @@ package stream_api_accept
 
 // C34. Invariant established by NewController: protocolID is a valid protocol ID.
 
+// The remote-peer filter is exactly the configured list, decoded.
 //@ func NewController
 //@   noframe
+//@   requires conf != nil
 //@   ensures ret1 == nil ==> ret0 != nil && ret0.protocolID != ""
+//@   ensures ret1 == nil ==> len(ret0.remotePeerIDs) == len(conf.RemotePeerIds)
+//@   ensures ret1 == nil ==> forall j int :: 0 <= j && j < len(conf.RemotePeerIds) ==> ret0.remotePeerIDs[j] == b58dec(conf.RemotePeerIds[j])
+//@   loop 1 invariant len(remotePeerIDs) == rangeindex + 1 && rangeindex < len(conf.RemotePeerIds)
+//@   loop 1 invariant forall j int :: 0 <= j && j <= rangeindex ==> remotePeerIDs[j] == b58dec(conf.RemotePeerIds[j])
 
 //@ func (*Controller).resolveHandleMountedStream
 //@   noframe
